@@ -2,6 +2,8 @@
 failures, all n, <= f Byzantine; single-process invariants; quorum arithmetic); correspondence = per-process trace inclusion of the label sequences
 recorded from the real core/qbft.Run in coq/Qbft/Model.v; global monitor on observed honest cluster executions:
 no two Decide callbacks carry different values."""
+import os
+
 import vp
 import qbft_engine as qe
 
@@ -23,6 +25,11 @@ def main():
     qe.report_common(R, res, "C02")
     for cid in res["c02"]:
         h = res["byid"][cid]
+        if os.environ.get("VERIF_REPLAY") and cid in {x[0] for x in res.get("deliv", [])}:
+            # the recorded events are not an execution on this tree (an honest message of the recording is never
+            # broadcast here): the replay says nothing about this tree
+            R.notes.append("replay: the recorded events are not an execution of Qbft/Net.v on this tree (a delivered honest part was never broadcast); no verdict")
+            continue
         if not h["kind"].startswith("cluster"):
             continue
         R.violation("agreement:two-decides-differ", "two Decide callbacks of history %d (%s, n=%d) carry different values" % (cid, h["kind"], h["nodes"]),
